@@ -134,8 +134,8 @@ def inline_constants(trees, report):
                     readonly = isinstance(par, ast.Attribute) and par.value is n and par.attr in ("items", "keys", "values", "get") and isinstance(pm.get(id(par)), ast.Call) and pm[id(par)].func is par
                     if not (membership or lookup or readonly):
                         continue
-                if origin[n.id] != rel and any(isinstance(x, ast.Name) for x in ast.walk(value)):
-                    continue  # names of the defining module are not necessarily visible here
+                if origin[n.id] != rel and any(isinstance(x, ast.Name) and not (hasattr(_b, x.id) and x.id not in here) for x in ast.walk(value)):
+                    continue  # names of the defining module are not necessarily visible here (builtins are)
                 new = copy.deepcopy(value)
                 for x in ast.walk(new):
                     ast.copy_location(x, n)
